@@ -1,6 +1,8 @@
 """Native replays for the model-matrix properties (engine-free)."""
 from __future__ import annotations
 
+import itertools
+
 import numpy
 
 from . import matrix_common as mc
@@ -345,17 +347,18 @@ def _(p):
     ref = dense(mm)
     names = list(mm.model_spec.column_names)
     for spec, how in ((mm.model_spec, "spec"), (pickle.loads(pickle.dumps(mm.model_spec)), "pickled spec")):
-        for rows in ([0, 1, 2, 3, 4, 5, 6], [6, 2, 2], [3], [1, 5, 0], [4, 4, 4, 0]):
-            sub = df.iloc[rows].reset_index(drop=True)
+        for rows, keep_labels in itertools.product(([0, 1, 2, 3, 4, 5, 6], [6, 2, 2], [3], [1, 5, 0], [4, 4, 4, 0], [6, 5, 4, 3, 2, 1, 0]), (False, True)):
+            # follow-up frames keep the row labels they were cut out with (reversed, duplicated, not starting at 0) or are re-indexed
+            sub = df.iloc[rows] if keep_labels else df.iloc[rows].reset_index(drop=True)
             try:
                 got = spec.get_model_matrix(sub)
             except Exception as e:
-                return f"replay-raises: {p['formula']!r} ({out}): {how} on rows {rows} raised {type(e).__name__}: {str(e)[:100]}"
+                return f"replay-raises: {p['formula']!r} ({out}): {how} on rows {rows} (labels kept: {keep_labels}) raised {type(e).__name__}: {str(e)[:100]}"
             if list(got.model_spec.column_names) != names:
                 return f"names-differ: {p['formula']!r} ({out}): {how} on rows {rows} gives columns {list(got.model_spec.column_names)[:6]}"
             g = dense(got)
             if g.shape != (len(rows), len(names)) or not numpy.allclose(g, ref[rows], rtol=1e-9, atol=1e-12, equal_nan=True):
-                return f"rows-differ: {p['formula']!r} ({out}): {how} on rows {rows} does not reproduce the recorded rows"
+                return f"rows-differ: {p['formula']!r} ({out}): {how} on rows {rows} (labels kept: {keep_labels}) does not reproduce the recorded rows"
     return None
 
 
